@@ -205,6 +205,12 @@ def run(chk, replay=None):
         n = rng.choice(sizes + [0, 4, 6])
         from csep.core.catalogs import CSEPCatalog
         obs = CSEPCatalog(data=[('o%d' % i, 10 ** 12 + i, 0.5, 0.5 + (i % 2), 5.0, 4.5) for i in range(n)], region=world.make_region())
+        if t % 3 == 2 and conf['src'] == 'list':
+            # the probabilities describe the synthetic catalogs as they are when the test is called: a complete pass that
+            # drops every second event of each catalog in place (a user's filtering loop) comes first
+            for c_ in fcst:
+                c_.catalog = c_.catalog[::2]
+            sizes = [(sz + 1) // 2 for sz in sizes]
         r = guarded(ce.number_test, fcst, obs, verbose=False)
         chk.count()
         if isinstance(r, Raised):
